@@ -17,7 +17,7 @@ for p in "${patches[@]}"; do
   t0=$(date +%s)
   out="$(./check C08 --tier quick --no-evidence --run-timeout 25 2>&1)"; rc=$?
   t1=$(date +%s)
-  git -C /repo checkout -q -- .
+  git -C /repo checkout -q -- . ; git -C /repo clean -fdq visitor plugin
   first="$(echo "$out" | grep -m1 -E "^--- " | cut -c1-150)"
   nviol="$(echo "$out" | grep -c "^VIOLATION")"
   case "$name" in
